@@ -34,7 +34,7 @@ ASSUMPTIONS = [
     "documented errors = the exception classes of pyoak.legacy.error; an operation that raises anything else gives no verdict (counted)",
     "operations expected to be rejected that are accepted give no verdict (counted) and join the history",
 ]
-MUST_SEE = ["transform_result_is_an_attached_root", "detached_receiver_children_reused", "falsy_replacement_with_parent", "visitor_reused_after_rejection", "wrapper_reusing_own_child", "replace_with_own_child", "adopted_children_checked", "runtime_only_child_field_transform", "rule_replaces_children_of_its_copy", "receiver_below_falsy_parent", 
+MUST_SEE = ["same_id_pair_as_children", "transform_result_is_an_attached_root", "detached_receiver_children_reused", "falsy_replacement_with_parent", "visitor_reused_after_rejection", "wrapper_reusing_own_child", "replace_with_own_child", "adopted_children_checked", "runtime_only_child_field_transform", "rule_replaces_children_of_its_copy", "receiver_below_falsy_parent", 
     "rejected_ASTNodeDuplicateChildrenError", "rejected_ASTNodeParentCollisionError", "rejected_ASTNodeIDCollisionError", "rejected_ASTNodeRegistryCollisionError",
     "rejected_ASTNodeReplaceError", "rejected_ASTNodeReplaceWithError", "rejected_ASTTransformError", "failing_element_not_first", "frames_compared", "nested_failing_element", "two_collided_children",
 ]
@@ -108,8 +108,8 @@ def run_shard(ctx):
             kind = rng.choices(
                 ["dup_seq", "dup_two_fields", "parent_collision", "parent_collision_nested", "id_collision", "attach_collision", "attach_collision_nested",
                  "replace_keys", "replace_dup", "replace_parent_collision", "rw_has_parent", "rw_wrong_class", "rw_none_required", "rw_attach_fails",
-                 "transform_raises", "transform_removes_required", "transformer_raises", "rw_clone_of_attached", "parent_collision_two", "transform_runtime_children", "rw_own_child", "rw_wrapper_reuses_child", "transform_reused_visitor", "rw_falsy_with_parent", "transform_result_refused", "replace_dup_detached_receiver"],
-                [3, 3, 1, 1, 3, 3, 1, 3, 1, 1, 3, 3, 3, 1, 3, 3, 3, 2, 2, 2 if f"{P}Seq" in U.cls else 0, 2, 2, 2, 2, 2, 2],
+                 "transform_raises", "transform_removes_required", "transformer_raises", "rw_clone_of_attached", "parent_collision_two", "transform_runtime_children", "rw_own_child", "rw_wrapper_reuses_child", "transform_reused_visitor", "rw_falsy_with_parent", "transform_result_refused", "replace_dup_detached_receiver", "replace_same_id_pair"],
+                [3, 3, 1, 1, 3, 3, 1, 3, 1, 1, 3, 3, 3, 1, 3, 3, 3, 2, 2, 2 if f"{P}Seq" in U.cls else 0, 2, 2, 2, 2, 2, 2, 2],
             )[0]
             where = rng.choice(["first", "middle", "last"])
             if kind == "dup_seq":
@@ -247,6 +247,23 @@ def run_shard(ctx):
                 F.add(new_home)
                 ctx.count("detached_receiver_children_reused")
                 return ("replace", "last", oldn, [a_, b_, c_, c_], lambda: oldn.replace(items=(a_, b_, c_, c_)))
+            if kind == "replace_same_id_pair":
+                # a node is detached while a reference to it is kept, the same node is created again (same id); later both
+                # objects are handed to replace() of an attached node: two children with one id, refused before anything moves
+                R.counter += 1
+                v_ = R.counter + 90000
+                one_old = U.cls[f"{P}Leaf"](v=v_, origin=NO)
+                one_old.detach()
+                one_new = U.cls[f"{P}Leaf"](v=v_, origin=NO)
+                recv = U.cls[f"{P}List"](items=tuple(leaf() for _ in range(rng.randrange(0, 3))), origin=NO)
+                top = U.cls[f"{P}Un"](child=recv, origin=NO) if rng.random() < 0.6 else None
+                F.add(one_old, one_new, recv, top)
+                pair = [one_new, one_old] if where != "last" else [one_old, one_new]
+                cur = list(recv.items)
+                val = cur + pair if where != "first" else pair + cur
+                R.last_replace = ("items", list(val))
+                ctx.count("same_id_pair_as_children")
+                return ("replace", where, recv, val, lambda: recv.replace(items=tuple(val)))
             if kind == "rw_falsy_with_parent":
                 # the replacement already has a parent - and is falsy in a boolean context (a block without statements)
                 x = U.cls[f"{P}Block"](header=leaf() if rng.random() < 0.5 else None, origin=NO)
@@ -504,6 +521,17 @@ def run_shard(ctx):
                     # that was detached already has nothing cleared, so nothing at all may differ afterwards
                     ctx.count("detached_receiver_rejections")
                     return generic + "|receiver-was-detached", roles
+                # duplicates - two children carrying one node id, the same object twice or two objects - are detected before
+                # any child is adopted: the supplied children come out exactly as they went in
+                fname_, val_ = R.last_replace
+                new_ids = []
+                for fld in U.child_fields(type(recv).__name__):
+                    v = val_ if fld.name == fname_ else getattr(recv, fld.name)
+                    new_ids += [c.id for c in ([] if v is None else list(v) if isinstance(v, (list, tuple)) else [v])]
+                if len(set(new_ids)) != len(new_ids):
+                    ctx.count("duplicate_ids_arguments_checked")
+                    if any(dd.get("obj") in arg_sub and dd.get("obj") not in recv_sub for dd in diff if dd["node"] != "<registry>"):
+                        return generic + "|supplied-child-changed-although-duplicates-are-detected-up-front", roles
                 safe = set()
                 if ename != "ASTNodeDuplicateChildrenError":  # duplicates are detected before any child is adopted
                     fname, val = R.last_replace
